@@ -569,6 +569,23 @@ var _ p9p.FileSys = (*FS)(nil)
 var _ p9p.Dirent = (*Handle)(nil)
 var _ p9p.File = (*OpenFile)(nil)
 
+// PopulateDeep adds a chain of directories /name/d1/d2/.../d<depth>.
+func (fs *FS) PopulateDeep(name string, depth int) {
+	fs.mu.Lock()
+	defer fs.mu.Unlock()
+	cur := fs.addNode(fs.Root, name, true)
+	for i := 1; i <= depth; i++ {
+		cur = fs.addNode(cur, fmt.Sprintf("d%d", i), true)
+	}
+}
+
+// NewFileRoot: a file system whose attach point is a regular file (9P allows exporting one file).
+func NewFileRoot() *FS {
+	fs := New()
+	fs.Root = &Node{ID: 1, Name: "/", Dir: false, Mode: 0644, Data: []byte("the exported file")}
+	return fs
+}
+
 // PopulateDir adds a directory /name with n children produced by f.
 func (fs *FS) PopulateDir(name string, n int, f func(i int) (string, []byte)) {
 	fs.mu.Lock()
